@@ -4,9 +4,11 @@ use super::*;
 use crate::bytecode::reader::BytecodeReader;
 use crate::bytecode::{StringTable, TypeData, TypeEntry, TypeKind, TypeTable};
 
+#[allow(dead_code)]
 fn alias(to: u32) -> TypeEntry {
     TypeEntry { kind: TypeKind::Alias, name_idx: None, data: TypeData::Alias { target_type_id: to } }
 }
+#[allow(dead_code)]
 fn subrange(to: u32) -> TypeEntry {
     TypeEntry { kind: TypeKind::Subrange, name_idx: None, data: TypeData::Subrange { base_type_id: to, lower: 0, upper: 1 } }
 }
@@ -14,40 +16,9 @@ fn prim(prim_id: u16) -> TypeEntry {
     TypeEntry { kind: TypeKind::Primitive, name_idx: None, data: TypeData::Primitive { prim_id, max_length: 0 } }
 }
 
-// Termination of the recursive constant-payload walk: a type table whose alias / subrange entries
-// form a cycle must be rejected with an error; the walk may not recurse without bound.
-// (`unwind=strict`: the recursion bound IS the contract -- an unwinding-assertion failure means the
-// validator can recurse deeper than the number of types, i.e. it does not terminate.)
-// @unit id=bc.validate.const_cycle props=C11 tier=quick kind=bounded bound="type tables: [alias->0], [alias->1, alias->0], [subrange->0], [alias->1, prim]; payload <= 8 symbolic bytes" unwind=strict timeout=1200 fn=validate_const_payload_entry
-#[kani::proof]
-#[kani::unwind(8)]
-fn bc_validate_const_cycle() {
-    let payload: [u8; 8] = kani::any();
-    let plen: usize = kani::any();
-    kani::assume(plen <= 8);
-    let strings = StringTable { entries: Vec::new() };
-    let which: u8 = kani::any();
-    kani::assume(which < 4);
-    let types = match which {
-        0 => TypeTable { offsets: Vec::new(), entries: vec![alias(0)] },
-        1 => TypeTable { offsets: Vec::new(), entries: vec![alias(1), alias(0)] },
-        2 => TypeTable { offsets: Vec::new(), entries: vec![subrange(0)] },
-        _ => TypeTable { offsets: Vec::new(), entries: vec![alias(1), prim(4)] },
-    };
-    let mut reader = BytecodeReader::new(&payload[..plen]);
-    let r = validate_const_payload_entry(&strings, &types, &types.entries[0], &mut reader);
-    let is_ok = r.is_ok();
-    std::mem::forget(r);
-    if which < 3 {
-        assert!(!is_ok, "a cyclic alias/subrange chain is rejected");
-    } else {
-        assert!(is_ok == (plen >= 4), "an acyclic alias resolves to its target (DINT: four bytes)");
-    }
-    kani::cover!(which == 0);
-    kani::cover!(which == 1);
-    kani::cover!(which == 3 && is_ok);
-    std::mem::forget(types);
-}
+// Termination of the recursive constant-payload walk (validate_const_payload_entry) is NOT decided here:
+// CBMC unrolls its four recursive call sites exponentially (out of memory / > 10 min with a one-entry
+// type table). It is proved unboundedly by the Verus unit bc.const_walk (decreases clause).
 
 // ensure_* index validators: Ok => index is inside the table
 // @unit id=bc.validate.indices props=C11 tier=quick kind=bounded bound="tables of 0..2 entries, index full u32" fn=ensure_string_index,ensure_type_index
